@@ -141,19 +141,24 @@ class Box(object):
         return self.items + other
 
 
-FLOWS = ("distinct", "same")
+FLOWS = ("distinct", "same", "ctxobj")
 
 
 def make_flow(n, data="list", flow="distinct"):
     """n values; each has list data (or, data="obj", a user object holding the list) and a private
     nested context (no aliasing between values). flow="distinct": the values differ from each other in
     data and context; flow="same": all values are EQUAL (data and context) and still every one is made
-    of its own objects - equality is not aliasing."""
+    of its own objects - equality is not aliasing. flow="ctxobj": as "distinct", but every context is
+    a lena.context.Context (the documented dict subclass that the element Context() puts into the flow
+    in place of a plain dict; it has its own attributes and may have its own copy protocol) whose nested
+    items are ordinary dicts and lists."""
     out = []
     for j in range(n):
-        m = j if flow == "distinct" else 0
-        out.append(([m] if data == "list" else Box([m]),
-                    {"id": m, "tag": "t", "nest": {"k": [m]}, "output": {"prefix": "p"}}))
+        m = j if flow != "same" else 0
+        c = {"id": m, "tag": "t", "nest": {"k": [m]}, "output": {"prefix": "p"}}
+        if flow == "ctxobj":
+            c = lena.context.Context(c)
+        out.append(([m] if data == "list" else Box([m]), c))
     return out
 
 
@@ -182,6 +187,22 @@ class Gen(object):
 SRC_N = 2
 
 
+class MultiTap(object):
+    """The observers of a branch that is a bare nested container: one Tap at the end of each of its
+    sequences. snaps / objs: those of the sequences, sequence by sequence."""
+
+    def __init__(self, subs):
+        self.subs = subs
+
+    @property
+    def snaps(self):
+        return [("seq", i, s) for i, t in enumerate(self.subs) for s in t.snaps]
+
+    @property
+    def objs(self):
+        return [o for t in self.subs for o in t.objs]
+
+
 class Tap(object):
     """Observer at the end of a branch: records a canonical snapshot of every value that leaves the
     branch (at that moment) and the object itself; passes the object on unchanged."""
@@ -207,9 +228,16 @@ TERM_TOKENS = ("seq", "store", "last", "fr", "storei")
 # type a Split accepts. It does not read the flow; Split.run calls it once and drops it from its list of
 # active branches. Kept out of TERM_TOKENS (the product mutators x terminals): SRC_PRE lists its mutators.
 SRC_TOKEN = "src"
+# "zipn": the branch is a bare Zip (not wrapped into a tuple or a FillComputeSeq: the container gets the
+# Zip object itself) of NEST_N FillCompute sequences, each made of its own instances of the branch's
+# mutators, StoreFilled and a Tap: a container nested in a container. Like the Source it is kept out of
+# the product mutators x terminals: NEST_PRE lists its mutators.
+NEST_TOKEN = "zipn"
+NEST_PRE = ("none", "usr", "var", "cnt")
+NEST_N = 2
 SRC_PRE = ("none", "usr", "cnt")
 TERM_TYPE = {"seq": "sequence", "store": "fill_compute", "storei": "fill_compute",
-             "last": "fill_compute", "fr": "fill_request", "src": "source"}
+             "last": "fill_compute", "fr": "fill_request", "src": "source", "zipn": "fill_compute"}
 
 
 def _pre(token, term):
@@ -251,6 +279,16 @@ def make_branch(kind, explicit_frs):
     for tok in kind[:-1]:
         els.extend(_pre(tok, term))
     tap = Tap()
+    if term == "zipn":
+        subs, seqs = [], []
+        for _ in range(NEST_N):
+            sub = Tap()
+            sels = []
+            for tok in kind[:-1]:
+                sels.extend(_pre(tok, term))      # own instances for every sequence
+            seqs.append(tuple(sels + [lena.flow.StoreFilled(), sub]))
+            subs.append(sub)
+        return lena.flow.Zip(seqs), MultiTap(subs)
     if term == "src":
         # a Source must be given explicitly (a tuple is never taken for one)
         return lena.core.Source(Gen(), *(els + [tap])), tap
@@ -429,8 +467,15 @@ def _ident(x):
     return x
 
 
-def _ctx(j):
-    return {"id": j, "nest": {"k": [j]}, "lst": [j]}
+CTXS = ("dict", "Context")
+
+
+def _ctx(j, ctx="dict"):
+    c = {"id": j, "nest": {"k": [j]}, "lst": [j]}
+    if ctx == "Context":
+        # the documented dict subclass; its nested items are ordinary dicts and lists
+        c = lena.context.Context(c)
+    return c
 
 
 ACCS = ("Sum", "DSum", "Mean", "MeanSumSeq", "VarianceMeanCount", "VarianceMeanCountCorr",
@@ -482,15 +527,16 @@ def make_acc(tok):
     raise ValueError(tok)
 
 
-def make_value(tok, j):
-    """The j-th filled value for accumulator *tok*: fresh data, fresh private nested context."""
+def make_value(tok, j, ctx="dict"):
+    """The j-th filled value for accumulator *tok*: fresh data, fresh private nested context (a plain
+    dict or, ctx="Context", a lena.context.Context)."""
     if tok in ("Vectorize", "Vectorize2"):
         data = (j + 1, j + 2)
     elif tok == "Graph":
         data = (j + 1, (j + 1) * 2)
     else:
         data = j + 1
-    return (data, _ctx(j))
+    return (data, _ctx(j, ctx))
 
 
 WRAPS = ("bare", "FillComputeSeq", "FillRequest", "FillRequestReset", "Split", "Zip")
